@@ -279,6 +279,25 @@ Proof.
 Qed.
 End Stack.
 
+(** shape-independent stepping through a computation applied to a state: expose one [bind], compute what is closed *)
+Lemma bind_run {A B} (m:M A) (f:A -> M B) s :
+  bind m f s = match m s with
+               | Some (a, c1, s1) => match f a s1 with
+                                     | Some (b, c2, s2) => Some (b, c1 ++ c2, s2)
+                                     | None => None end
+               | None => None end.
+Proof. reflexivity. Qed.
+Lemma bind_discard {A B} (m:M A) (g:A -> M B) s :
+  bind m (fun a => bind (g a) (fun _ => ret tt)) s
+  = match bind m g s with Some (_, cs, s') => Some (tt, cs, s') | None => None end.
+Proof.
+  unfold bind, ret. destruct (m s) as [[[a c1] s1]|]; [|reflexivity].
+  destruct (g a s1) as [[[x c2] s2]|]; cbn; rewrite ?app_nil_r; reflexivity.
+Qed.
+Ltac mrun := repeat first [rewrite bind_run
+                          | progress unfold into_claim_phase, into_proof_phase
+                          | progress cbn [assert_phase set_phase r_phase r_mem phase_eqb ret lift_opt fail iterM map app]].
+
 (** * The three phases (proof.py execute_gamma_phase / execute_claims_phase / execute_proofs_phase / execute_full) *)
 Definition lift_u (ph:phase) (o:option (list call * list term)) : option (unit * list call * rst) :=
   match o with Some (cs, m') => Some (tt, cs, mkrst m' ph) | None => None end.
@@ -317,32 +336,48 @@ Qed.
 Theorem gamma_phase_agree axs cls prs mem :
   gen_execute_gamma_phase [] axs cls prs I false (mkrst mem Gamma) = lift_u Gamma (gamma_calls inS loads axs mem).
 Proof.
-  unfold gen_execute_gamma_phase. unfold bind at 1 2 3. cbn [assert_phase r_phase phase_eqb iterM ret].
-  rewrite gamma_axioms_agree. destruct (gamma_calls inS loads axs mem) as [[cs m']|]; cbn; rewrite ?app_nil_r; reflexivity.
+  unfold gen_execute_gamma_phase. mrun. rewrite gamma_axioms_agree.
+  destruct (gamma_calls inS loads axs mem) as [[cs m']|]; cbn; rewrite ?app_nil_r; reflexivity.
 Qed.
 
 Theorem claims_phase_agree subs axs cls prs mem :
   gen_execute_claims_phase subs axs cls prs I false (mkrst mem Claim) = lift_u Claim (claim_calls inS loads (rev cls) mem).
 Proof.
-  unfold gen_execute_claims_phase. unfold bind at 1 2. cbn [assert_phase r_phase phase_eqb].
-  rewrite claims_agree. destruct (claim_calls inS loads (rev cls) mem) as [[cs m']|]; cbn; rewrite ?app_nil_r; reflexivity.
+  unfold gen_execute_claims_phase. mrun. rewrite claims_agree.
+  destruct (claim_calls inS loads (rev cls) mem) as [[cs m']|]; cbn; rewrite ?app_nil_r; reflexivity.
+Qed.
+
+(** one proof expression: [self.publish_proof(proof_expr)(interpreter)] *)
+Lemma publish_one_agree axs t th : build axs t = Some th -> forall mem,
+  bind (lift_opt (gen_dsl_publish_proof th)) (fun pe => gen_thunk_call pe I) (mkrst mem Proof)
+  = match tcalls inS loads io axs t mem with
+    | Some (c1, c, m1) => Some (th_conc th, c1 ++ [CPubProof c], mkrst m1 Proof)
+    | None => None end.
+Proof.
+  destruct (stack_ops b ls) as (fi & EO & _). intros Hb mem.
+  unfold gen_dsl_publish_proof. mrun. unfold gen_thunk_call at 1. cbn [th_expr th_conc]. mrun.
+  rewrite (thunk_agree b ls axs t th Hb).
+  destruct (tcalls inS loads io axs t mem) as [[[c1 c] m1]|]; [|reflexivity]. cbn [lift_t].
+  rewrite EO. cbn -[pat_eqb]. rewrite pat_eqb_refl. cbn. rewrite ?app_nil_r. reflexivity.
 Qed.
 
 Theorem proofs_phase_agree subs axs cls ts : forall ths, Forall2 (fun t th => build axs t = Some th) ts ths -> forall mem,
   gen_execute_proofs_phase subs axs cls ths I (mkrst mem Proof) = lift_u Proof (proof_calls inS loads io axs ts mem).
 Proof.
-  destruct (stack_ops b ls) as (fi & EO & _).
-  intros ths F mem. unfold gen_execute_proofs_phase. unfold bind at 1 2. cbn [assert_phase r_phase phase_eqb].
-  assert (L : forall mem, iterM (fun v_proof_expr => bind (lift_opt (gen_dsl_publish_proof v_proof_expr))
-                (fun a75 => bind (gen_thunk_call a75 I) (fun _ => ret tt))) ths (mkrst mem Proof)
-              = lift_u Proof (proof_calls inS loads io axs ts mem)).
+  intros ths F mem. unfold gen_execute_proofs_phase.
+  match goal with |- context [iterM ?f ths] => set (STEP := f) end.
+  assert (HS : forall t th, build axs t = Some th -> forall mem,
+            STEP th (mkrst mem Proof) = match tcalls inS loads io axs t mem with
+                                        | Some (c1, c, m1) => Some (tt, c1 ++ [CPubProof c], mkrst m1 Proof)
+                                        | None => None end).
+  { intros t th Hb m. subst STEP. cbv beta. rewrite bind_discard, (publish_one_agree axs t th Hb m).
+    destruct (tcalls inS loads io axs t m) as [[[c1 c0] m1]|]; reflexivity. }
+  assert (L : forall mem, iterM STEP ths (mkrst mem Proof) = lift_u Proof (proof_calls inS loads io axs ts mem)).
   { clear mem. induction F as [|t th ts ths Hb F IH]; intros mem; cbn [iterM proof_calls]; [reflexivity|].
-    unfold gen_dsl_publish_proof, lift_opt. unfold bind at 1 2 3. cbn [ret]. unfold gen_thunk_call at 1. cbn [th_expr th_conc].
-    unfold bind at 1 2. rewrite (thunk_agree b ls axs t th Hb).
-    destruct (tcalls inS loads io axs t mem) as [[[c1 c] m1]|]; [|reflexivity]. cbn [lift_t].
-    rewrite EO. cbn -[iterM proof_calls pat_eqb]. rewrite pat_eqb_refl. cbn -[iterM proof_calls]. rewrite IH.
+    rewrite bind_run, (HS t th Hb).
+    destruct (tcalls inS loads io axs t mem) as [[[c1 c] m1]|]; [|reflexivity]. rewrite IH.
     destruct (proof_calls inS loads io axs ts m1) as [[c2 m2]|]; cbn; rewrite ?app_nil_r, <- ?app_assoc; reflexivity. }
-  rewrite L. destruct (proof_calls inS loads io axs ts mem) as [[cs m']|]; cbn; rewrite ?app_nil_r; reflexivity.
+  mrun. rewrite L. destruct (proof_calls inS loads io axs ts mem) as [[cs m']|]; cbn; rewrite ?app_nil_r; reflexivity.
 Qed.
 End Phases.
 
@@ -383,7 +418,7 @@ Proof.
   match goal with |- context [bind (iterM ?f axs) ?k] => set (TAIL := bind (iterM f axs) k) end.
   assert (HT : forall m, TAIL (mkrst m Gamma) = lift_u Gamma (gamma_calls (cfg_inS ls) (cfg_loads b ls) axs m)).
   { intros m. pose proof (gamma_phase_agree b ls axs [] [] m) as T. unfold gen_execute_gamma_phase in T. fold TAIL in T.
-    unfold bind at 1 2 in T. cbn [assert_phase r_phase phase_eqb iterM ret] in T.
+    repeat first [rewrite bind_run in T | progress cbn [assert_phase r_phase phase_eqb iterM ret] in T].
     destruct (TAIL (mkrst m Gamma)) as [[[u c] s']|]; cbn in T; exact T. }
   assert (L : forall mem, iterM (fun v_submodule => v_submodule (stack_obj b ls) false) (map tree_gamma subs) (mkrst mem Gamma)
               = lift_u Gamma (gamma_calls (cfg_inS ls) (cfg_loads b ls) (flat_map flat_axioms subs) mem)).
@@ -391,7 +426,7 @@ Proof.
     unfold bind. rewrite Hs, gamma_calls_app.
     destruct (gamma_calls _ _ (flat_axioms s) mem) as [[c1 m1]|]; [|reflexivity]. cbn [lift_u]. rewrite IHs.
     destruct (gamma_calls _ _ (flat_map flat_axioms subs) m1) as [[c2 m2]|]; reflexivity. }
-  unfold bind at 1 2. cbn [assert_phase r_phase phase_eqb].
+  repeat first [rewrite bind_run | progress cbn [assert_phase r_phase phase_eqb ret]].
   rewrite L, gamma_calls_app.
   destruct (gamma_calls _ _ (flat_map flat_axioms subs) mem) as [[c1 m1]|]; [|reflexivity]. cbn [lift_u].
   rewrite HT. destruct (gamma_calls _ _ axs m1) as [[c2 m2]|]; reflexivity.
@@ -410,13 +445,9 @@ Theorem execute_full_agree b ls axs cls ts ths : Forall2 (fun t th => build axs 
       | None => None end
   | None => None end.
 Proof.
-  intros F. unfold gen_execute_full. unfold bind at 1 2. cbn [assert_phase r_phase phase_eqb].
-  unfold gen_execute_gamma_phase at 1. unfold bind at 1 2 3. cbn [assert_phase r_phase phase_eqb iterM ret].
-  rewrite gamma_axioms_agree. destruct (gamma_calls _ _ axs []) as [[cg mg]|]; [|reflexivity]. cbn [lift_u].
-  unfold bind at 1. cbn -[gen_execute_claims_phase gen_execute_proofs_phase].
-  unfold bind at 1. unfold gen_execute_claims_phase at 1. unfold bind at 1 2. cbn [assert_phase r_phase phase_eqb].
-  rewrite claims_agree. destruct (claim_calls _ _ (rev cls) mg) as [[cc mc]|]; [|reflexivity]. cbn [lift_u].
-  unfold bind at 1. cbn -[gen_execute_proofs_phase].
+  intros F. unfold gen_execute_full, gen_execute_gamma_phase, gen_execute_claims_phase. mrun.
+  rewrite gamma_axioms_agree. destruct (gamma_calls _ _ axs []) as [[cg mg]|]; [|reflexivity]. cbn [lift_u]. mrun.
+  rewrite claims_agree. destruct (claim_calls _ _ (rev cls) mg) as [[cc mc]|]; [|reflexivity]. cbn [lift_u]. mrun.
   rewrite (proofs_phase_agree b ls [] axs cls ts ths F).
   destruct (proof_calls _ _ _ axs ts mc) as [[cp mp]|]; cbn; rewrite ?app_nil_r, <- ?app_assoc; reflexivity.
 Qed.
